@@ -37,7 +37,7 @@ CHECKS["C10"] = {
     "engine": "bootlink-sim",
     "level": "fault_enumeration",
     "text": "Co-simulation of the real host stack (McuBoot + serial/bulk protocol classes + SerialDevice/UsbDevice) against a reference bootloader device model behind the third-party driver seam (pyserial Serial, libusbsio HID) with a simulated clock: seeded histories of 1..12 API calls with boundary-straddling lengths, seeded multi-fault plans (bit flip, dropped byte, truncated/missing/late response, NAK, ABORT, device error status, aborted data phase; HID missing/abort/short report) and position sweeps that inject every listed fault kind at every device-to-host stream position of short histories. Oracles compare the device-side history with the caller-visible result: exact in the fault-free configuration, 'failure or documented exception, never a wrong success, bounded simulated time' under faults.",
-    "note": "Trusted: the device model in /verif/c10 (written from the protocol definition, validated by the fault-free control configuration), the simulated drivers, the clock seam. CRC-consistent corruption and fault kinds the statement does not name are observed, never judged. A device error status that ends a command cleanly does not close the history: the following calls are judged as fault-free calls. SDP/SDPS run against their own ROM model (sdp_control / sdp_faulty / sdps families).",
+    "note": "Trusted: the device model in /verif/c10 (written from the protocol definition, validated by the fault-free control configuration), the simulated drivers, the clock seam. CRC-consistent corruption and fault kinds the statement does not name are observed, never judged. A device error status that ends a command cleanly does not close the history: the following calls are judged as fault-free calls. SDP/SDPS run against their own ROM model (sdp_control / sdp_faulty / sdps families; SDPS ROM parameters are read from the database files independently of SPSDK). A third of the faulty sessions go on after a link fault without a reopen: later calls are judged for wrong success. One genuine finding is recorded, not repaired: over USB-HID reports left over from a failed exchange answer later calls (known_findings.json). Every run executes in a forked copy of the worker.",
     "technique": "deterministic simulation with fault injection: seeded API histories against a reference device model over a simulated link, fault-position sweeps, history oracles",
     "design_ref": "4.2",
 }
@@ -45,7 +45,7 @@ CHECKS["C10"] = {
 CHECKS["C17"] = {
     "engine": "entropy-history-sim",
     "level": "exploration",
-    "text": "Seeded histories of artifact constructions (SB2.0/2.1 default, partly explicit and explicit parameters; encrypted MBI through the generated class and through load_from_config; OTFAD, IEE, BEE key blobs; HAB DEK and nonce in a durable workspace; SB2.1 through the BD-file configuration path; helper objects and parsed configurations shared between builds; os.fork workers inside a lifetime) across 1..3 simulated interpreter lifetimes (forked children that import spsdk afresh in a plan-chosen module order). OS entropy is replaced by an injective counter device and the wall clock by a simulated one that the plan repeats or steps back across restarts, so two equal secrets can only come from reuse in the code (default argument, class-level value, value derived from the clock). Oracle: all self-chosen slots of a history are pairwise distinct and no (key, nonce) pair repeats. Sampling of histories, not proof.",
+    "text": "Seeded histories of artifact constructions (SB2.0/2.1 default, partly explicit and explicit parameters; encrypted MBI through the generated class and through load_from_config; OTFAD, IEE, BEE key blobs; HAB DEK and nonce in a durable workspace; the legacy BootImgRT class; BEE / IEE through load_from_config incl. empty keys and reused dictionaries; a BD keywrap statement; one MBI object loaded twice; SB2.1 through the BD-file configuration path; helper objects and parsed configurations shared between builds; os.fork workers inside a lifetime) across 1..3 simulated interpreter lifetimes (forked children that import spsdk afresh in a plan-chosen module order). OS entropy is replaced by an injective counter device and the wall clock by a simulated one that the plan repeats or steps back across restarts, so two equal secrets can only come from reuse in the code (default argument, class-level value, value derived from the clock). Oracle: all self-chosen slots of a history are pairwise distinct and no (key, nonce) pair repeats. Sampling of histories, not proof.",
     "note": "Trusted: the entropy/clock seams at the stdlib boundary (secrets, os.urandom, time, datetime), fork + fresh import as the model of a restart, the slot readers in /verif/c17/epoch.py. OpenSSL's own RNG is not observed.",
     "technique": "deterministic simulation with fault injection: injective entropy device + repeatable clock across simulated restarts, seeded construction histories, pairwise-freshness oracle",
     "design_ref": "4.3",
@@ -54,7 +54,7 @@ CHECKS["C17"] = {
 CHECKS["C11"] = {
     "engine": "register-refinement",
     "level": "exploration",
-    "text": "Seeded operation histories (1..40 register / bit-field / enum writes with boundary values 0, 1, 2^w-1, 2^w, 2^w+1, negative, in int / hex / dec / bin forms; enum names that look like numbers; resets; export->parse into a twin; parse of every prefix of the export; alternative-width group writes; get_config->load_yml_config into a fresh twin; 16 read-only queries) on generated register layouts (widths 8..512, partitioning bit-fields with hidden gaps, enums, shift-right config processors, grouped registers with normal and reversed sub-register order, reversed byte order on groups, both endiannesses) checked step by step against a bit-vector reference model, with a structural snapshot around every query. This is the history / refinement half of the technique only: the code has no clock, I/O, entropy or thread, so the fault set is empty and the evidence says so.",
+    "text": "Seeded operation histories (1..40 register / bit-field / enum writes with boundary values 0, 1, 2^w-1, 2^w, 2^w+1, negative, in int / hex / dec / bin forms; enum names that look like numbers; resets; export->parse into a twin; parse of every prefix of the export; alternative-width group writes; get_config->load_yml_config into a fresh twin; 16 read-only queries; deep copies written independently of the original; exports with a non-zero fill pattern) on generated register layouts (widths 8..512, partitioning bit-fields with hidden gaps, enums, shift-right config processors, grouped registers with normal and reversed sub-register order, reversed byte order on groups, both endiannesses) checked step by step against a bit-vector reference model, with a structural snapshot around every query. This is the history / refinement half of the technique only: the code has no clock, I/O, entropy or thread, so the fault set is empty and the evidence says so. Every run executes in a forked copy of the worker, so state kept in class attributes cannot travel between runs.",
     "note": "Trusted: the reference model and layout generator in /verif/c11 (layouts follow the real specifications: bit-fields partition the register, 'reversed' on groups only, shifted fields and group sub-registers carry no reset value; alternative widths are not value-predicted).",
     "technique": "deterministic seeded history search with step-by-step refinement against an executable reference model (simulation family, empty fault set), shrinking and replay",
     "design_ref": "4.4",
@@ -72,7 +72,7 @@ CHECKS["C05"] = {
 CHECKS["C04"] = {
     "engine": "bootlink-sim",
     "level": "exploration",
-    "text": "SB2.0 (unsigned / signed) and SB2.1 images built through the Python API and, for a quarter of the SB2.1 images, through a generated BD command file (parse_sb21_config -> load_from_config, as nxpimage sb21 export does), with object histories before the judged export (str / update / earlier exports) (1..4 sections with arbitrary ids and HMAC-table sizes, all 13 command types with boundary values and load data of every length mod 16, versions, build number, SHA flag, explicit or self-chosen DEK/MAC/nonce/timestamp incl. a counter word next to wrap-around, aware and naive timestamps, RSA-2048/4096 roots, 1..4 root keys in arbitrary RKH slots with the device RKTH computed from what was supplied) are given to two consumers: an independent ROM-loader model (RFC 3394 unwrap, header HMAC for 2.0/2.1, certificate block / RKH table / RSA signature, per-section encrypted header and HMAC table, AES-CTR with the nonce-derived counter measured from file start, command checksums, LOAD CRC) and SPSDK's own parse(). Fault-free: both must yield exactly what was given, and the header fields the supplied values. Storage faults between writer and consumers (bit flip biased to structure boundaries, truncation at arbitrary lengths and exactly at section boundaries, wrong KEK, torn replacement) and deliveries through the real McuBoot.receive_sb_file over the simulated link with link faults: each consumer raises or returns equal content, never different content; a delivery that reports success made the device process exactly that content. The fault-free half is, candidly, generated inputs against a reference model (control_runs); the fault half is what the simulation adds.",
+    "text": "SB2.0 (unsigned / signed) and SB2.1 images built through the Python API and, for a quarter of the SB2.1 images, through a generated BD command file (parse_sb21_config -> load_from_config, as nxpimage sb21 export does), with object histories before the judged export (str / update / earlier exports; sections edited after they were put together; equal sections; aliased load buffers; other time zones; another image built first in the same folder) (1..4 sections with arbitrary ids and HMAC-table sizes, all 13 command types with boundary values and load data of every length mod 16, versions, build number, SHA flag, explicit or self-chosen DEK/MAC/nonce/timestamp incl. a counter word next to wrap-around, aware and naive timestamps, RSA-2048/4096 roots, 1..4 root keys in arbitrary RKH slots with the device RKTH computed from what was supplied) are given to two consumers: an independent ROM-loader model (RFC 3394 unwrap, header HMAC for 2.0/2.1, certificate block / RKH table / RSA signature, per-section encrypted header and HMAC table, AES-CTR with the nonce-derived counter measured from file start, command checksums, LOAD CRC) and SPSDK's own parse(). Fault-free: both must yield exactly what was given, and the header fields the supplied values. Storage faults between writer and consumers (bit flip biased to structure boundaries, two-bit CTR malleation that keeps a command header checksum valid, truncation at arbitrary lengths and exactly at section boundaries, wrong KEK, torn replacement) and deliveries through the real McuBoot.receive_sb_file over the simulated link with link faults: each consumer raises or returns equal content, never different content; a delivery that reports success made the device process exactly that content. The fault-free half is, candidly, generated inputs against a reference model (control_runs); the fault half is what the simulation adds.",
     "note": "Trusted: the ROM-loader model c04/rom2.py (validated at start-up on 12 elftosb-made files under golden/sb2, incl. rejection of corrupted copies and of a wrong KEK; a failure there is exit 2), the C10 link/device models, the clock seam. Two genuine deviations are recorded, not repaired: LOAD lengths are padded to 16, and 4-byte binary blobs of BD load statements are written byte-reversed (known_findings.json).",
     "technique": "deterministic simulation with fault injection: build -> storage fault -> simulated link -> independent ROM-loader model and SPSDK parser; seeded images, bit-flip / truncation / wrong-key / torn-write and link-fault injection",
     "design_ref": "4.6",
